@@ -203,6 +203,7 @@ type World struct {
 	Replay    bool
 	nextOp    int
 	weights   map[string]int
+	groups    [][]string
 	gasMax    map[string]uint64
 	gasMin    map[string]uint64
 	denoms    map[string]*big.Int // genesis funding per actor
